@@ -9,6 +9,9 @@ from harness.framework import Suite
 
 PID = "C09"
 LEAN_MODS = ["SwcVerif.Props.C09"]
+# Gen/AlgoViews.lean is regenerated on every run from node.py / path.py / tree.py / branch.py / compartment.py / swc.py (harness/algo_specs/70_views.py)
+TRANSLATE_ALGO = ["AlgoViews"]
+DRIVER_FILES = ["SwcVerif/Model/AlgoRunViews.lean", "SwcVerif/Model/PyViews.lean", "SwcVerif/Gen/AlgoViews.lean"]
 THEOREMS = [
     "C09.mkTree_wf", "C09.step_wf", "C09.run_wf", "C09.at_spec", "C09.view_reads_owner", "C09.reads_pure", "C09.node_write_through",
     "C09.write_then_view_read", "C09.copy_fresh", "C09.detach_fresh", "C09.write_frame", "C09.tree_segments", "C09.branch_segments",
@@ -307,8 +310,26 @@ class History(Suite):
                 elif k == "sl":
                     o = objs[op[1]]
                     if isinstance(o, Tree):
-                        outs.append({"slice": [int(nd.id) for nd in o[slice(op[2], op[3], op[4])]],
-                                     "want": [int(o.id()[i]) for i in range(*slice(op[2], op[3], op[4]).indices(len(o)))]})
+                        got = {"slice": [int(nd.id) for nd in o[slice(op[2], op[3], op[4])]],
+                               "want": [int(o.id()[i]) for i in range(*slice(op[2], op[3], op[4]).indices(len(o)))]}
+                        if views:
+                            # the same slice of a VIEW (Path.__getitem__), and a store through one of the view's node handles: it goes to the
+                            # temporary array `Path.get_ndata` makes (lost by design, see ASSUMPTIONS), the owner's column is read back
+                            j = (op[1] + len(outs)) % len(views)
+                            vw = views[j]
+                            got["view"] = j
+                            got["vslice"] = [int(nd[nd.names.id]) for nd in vw[slice(op[2], op[3], op[4])]]
+                            got["vwant"] = [int(vw.origin_id()[i]) for i in range(*slice(op[2], op[3], op[4]).indices(len(vw)))]
+                            kk = op[2] if op[2] is not None else -1
+                            try:
+                                vw[kk][vw.names.type] = 77
+                                got["pw"] = (kk, "ok")
+                            except IndexError:
+                                got["pw"] = (kk, "E")
+                            got["pw_owner"] = objs.index(vw.attach) if any(vw.attach is x for x in objs) else None
+                            if got["pw_owner"] is not None:
+                                got["pw_col"] = [int(v) for v in column(vw.attach, "type", via)]
+                        outs.append(got)
                     else:
                         outs.append("skip")
             except IndexError:
@@ -335,12 +356,41 @@ class History(Suite):
                 exp.append("{" + ";".join(f"{a}:{b}" for a, b in o) + "}")
             else:
                 exp.append("[" + ",".join(str(v) for v in o) + "]")
-        if not toks:
-            return []
         cols = {"id": list(range(t["n"])), "pid": t["pids"], "type": t["types"], "x": [int(p[0]) for p in t["xyz"]], "y": [int(p[1]) for p in t["xyz"]],
                 "z": [int(p[2]) for p in t["xyz"]], "r": [int(v) for v in t["r"]]}
-        line = "views " + " ".join(f"{k}={gen.ints(v)}" for k, v in cols.items()) + " ops=" + ";".join(toks)
-        return [(line, " ".join(exp))]
+        a = " ".join(f"{k}={gen.ints(v)}" for k, v in cols.items())
+        out = [("views " + a + " ops=" + ";".join(toks), " ".join(exp))] if toks else []
+        # the definitions GENERATED from the current sources (Gen/AlgoViews.lean), run on the same history; in addition the slices of the tree
+        # and of a view, and a store through a node handle of a view (ops the hand-written model does not have)
+        N = lambda x: "N" if x is None else str(x)
+        for op, o in zip(case["ops"], res["outs"]):
+            if op[0] == "sl" and isinstance(o, dict):
+                # Python's own slice.indices / range against Py.sliceIndices / Py.range3, further steps included
+                for c in (op[4], -3, 3, 0, -2):
+                    for n in sorted({t["n"], 0, 4}):
+                        try:
+                            tr = slice(op[2], op[3], c).indices(n)
+                            want = f"{tr[0]},{tr[1]},{tr[2]} / " + ",".join(str(i) for i in range(*tr))
+                        except ValueError:
+                            want = "E"
+                        out.append((f"gslice n={n} a={N(op[2])} b={N(op[3])} c={N(c)}", want))
+        # (the base ops, in order, interleaved with the extra ones above)
+        gtoks, gexp, bi = [], [], 0
+        for op, o in zip(case["ops"], res["outs"]):
+            if op[0] == "sl":
+                if isinstance(o, dict):
+                    sl = ":".join(N(x) for x in op[2:5])
+                    gtoks.append(f"sl:{op[1]}:{sl}"); gexp.append("[" + ",".join(str(v) for v in o["slice"]) + "]")
+                    if "view" in o:
+                        gtoks.append(f"vsl:{o['view']}:{sl}"); gexp.append("[" + ",".join(str(v) for v in o["vslice"]) + "]")
+                        gtoks.append(f"pw:{o['view']}:{o['pw'][0]}:type:77"); gexp.append(o["pw"][1])
+                        if o.get("pw_owner") is not None:
+                            gtoks.append(f"r:{o['pw_owner']}:type"); gexp.append("[" + ",".join(str(v) for v in o["pw_col"]) + "]")
+                continue
+            gtoks.append(toks[bi]); gexp.append(exp[bi]); bi += 1
+        if gtoks:
+            out.append(("gviews " + a + " ops=" + ";".join(gtoks), " ".join(gexp)))
+        return out
 
     def oracle(self, case, res):
         """the property read on the history: reference semantics with an independent tiny interpreter (dicts of lists)"""
@@ -403,6 +453,8 @@ class History(Suite):
                 elif k == "sl":
                     if got not in ("skip", "E") and got["slice"] != got["want"]:
                         out.append(("slice-nodes", f"tree[{op[2]}:{op[3]}:{op[4]}] gave nodes {got['slice']}, expected {got['want']}"))
+                    if got not in ("skip", "E") and got.get("vslice") != got.get("vwant"):
+                        out.append(("slice-nodes", f"view[{op[2]}:{op[3]}:{op[4]}] gave nodes {got['vslice']}, expected {got['vwant']}"))
                     continue
             except IndexError:
                 want = "E"
